@@ -126,7 +126,7 @@ int main(int argc, char** argv)
                     if (dropped[a]) continue;
                     if (tight)
                     {
-                        scripts[a].push_back({10, 0, 0});
+                        scripts[a].push_back({10, p + 1, 0});    // n = phase number: pairs of actors align their arrivals
                         continue;
                     }
                     int r = (int) R.below(6);
@@ -164,6 +164,8 @@ int main(int argc, char** argv)
 
         std::atomic<int> finished{0}, go{0};
         std::atomic<long long> progress{0};
+        std::vector<std::atomic<int>> pairgate(4 * 32);
+        for (auto& g : pairgate) g = 0;
         std::vector<std::thread> os_threads;
         for (int a = 1; a <= nact; ++a)
         {
@@ -203,6 +205,18 @@ int main(int argc, char** argv)
                         break;
                     case 10:
                         call(a, "b_arrive_and_wait", 0);
+                        if (s.n > 0)
+                        {
+                            // tight loops: actors 2k-1 and 2k try (for a bounded time) to arrive at the same
+                            // instant; the other actors are not aligned, so this is not a barrier of its own
+                            int partner = ((a - 1) ^ 1) + 1;
+                            if (partner <= nact)
+                            {
+                                auto& g = pairgate[((a - 1) / 2) * 32 + (s.n % 32)];
+                                g.fetch_add(1, std::memory_order_relaxed);
+                                for (int spin = 0; spin < 30000 && g.load(std::memory_order_relaxed) < 2; ++spin) {}
+                            }
+                        }
                         bar->arrive_and_wait();
                         ret(a, 1);
                         break;
